@@ -242,8 +242,43 @@ func (j *productJob) Describe(i int) map[string]interface{} {
 	return map[string]interface{}{"unit": i, "prefix": pre, "paths": texts, "sig": "unit:" + pre}
 }
 
+// aliasedWide maps the JSON text of the wide documents that share containers (built in Go, not
+// reproducible by decoding their text) to their index in gen.WideDocs().
+var aliasedWide = func() map[string]int {
+	m := map[string]int{}
+	ws := gen.WideDocs()
+	for i := len(ws) - 4; i < len(ws); i++ {
+		m[gen.JSON(ws[i])] = i
+	}
+	return m
+}()
+
 func caseOf(id, path string, docText string, mode int, cfg string) map[string]interface{} {
-	return map[string]interface{}{"path": path, "doc": docText, "mode": modeName[mode], "config": cfg}
+	cs := map[string]interface{}{"path": path, "doc": docText, "mode": modeName[mode], "config": cfg}
+	if i, ok := aliasedWide[docText]; ok {
+		cs["wide_doc"] = i // a document with shared containers: rebuilt from the generator on replay
+	}
+	return cs
+}
+
+// docOfCase rebuilds the document of a replay case.
+func docOfCase(cs map[string]interface{}) interface{} {
+	docText, _ := cs["doc"].(string)
+	mode := modeFloat
+	if cs["mode"] == modeName[modeNumber] {
+		mode = modeNumber
+	}
+	if w, ok := cs["wide_doc"]; ok {
+		var i int
+		fmt.Sscan(fmt.Sprint(w), &i)
+		if ws := gen.WideDocs(); i >= 0 && i < len(ws) {
+			if mode == modeNumber {
+				return gen.ToNumber(ws[i])
+			}
+			return ws[i]
+		}
+	}
+	return decodeDoc(docText, mode)
 }
 
 // caseOfP also embeds the AST so that a replay does not have to search for it.
@@ -391,12 +426,7 @@ func (j *productJob) freshEval(text string, m, di int) (impl.CallResult, interfa
 // replayProduct re-executes one (path, doc, mode) case with the given oracle.
 func replayProduct(cs map[string]interface{}, judge func(p string, ast *gen.Path, doc interface{}, env *impl.Env) (bool, string)) (bool, string) {
 	path, _ := cs["path"].(string)
-	docText, _ := cs["doc"].(string)
-	mode := modeFloat
-	if cs["mode"] == modeName[modeNumber] {
-		mode = modeNumber
-	}
-	doc := decodeDoc(docText, mode)
+	doc := docOfCase(cs)
 	env := impl.NewEnv()
 	return judge(path, astOf(cs), doc, env)
 }
